@@ -250,14 +250,17 @@ impl Check for C09 {
             }
             "inline-random" => {
                 fn table(rng: &mut Rng, depth: usize, variant: u8) -> String {
-                    let alpha = ["a", "b", "c"];
-                    let n = 1 + rng.below(4);
+                    // one table in eight is wide: many entries, mostly plain keys, over a larger
+                    // alphabet (a table's size must not change how its keys are checked)
+                    let wide = rng.chance(1, 8);
+                    let alpha: &[&str] = if wide { &["a", "b", "c", "d", "e", "f", "g", "h", "i", "j", "k", "l", "m", "n"] } else { &["a", "b", "c"] };
+                    let n = if wide { 6 + rng.below(14) } else { 1 + rng.below(4) };
                     let mut es = Vec::new();
                     for _ in 0..n {
-                        let pl = 1 + rng.below(4);
+                        let pl = if wide && !rng.chance(1, 6) { 1 } else { 1 + rng.below(4) };
                         let mut p: Vec<String> = Vec::new();
                         for _ in 0..pl {
-                            let seg = *rng.pick(&alpha);
+                            let seg = *rng.pick(alpha);
                             p.push(spell(rng, seg, variant));
                         }
                         let v = match rng.below(8) {
